@@ -552,15 +552,14 @@ class Sandbox:
     def _mock_builtins(self, data: dict, builtins: dict):
         builtins = builtins
         for name, value in builtins.items():
+            # Only the builtins namespace: writing into the globals as well would overwrite a
+            # student's own variable or function of that name (exit, open, input, ...)
             if value is True:
                 data['__builtins__'][name] = mocked.ORIGINAL_BUILTINS[name]
-                data[name] = mocked.ORIGINAL_BUILTINS[name]
             elif value is False:
                 data['__builtins__'][name] = mocked.disabled_builtin(name)
-                data[name] = mocked.disabled_builtin(name)
             else:
                 data['__builtins__'][name] = value
-                data[name] = value
 
     def _start_mocking(self, context: SandboxContext):
         """ Mock input, output, builtins, and modules """
@@ -817,9 +816,14 @@ class Sandbox:
         Returns:
 
         """
-        data['__builtins__'] = {}
+        # Keep the same namespace object: functions the student already defined hold on to it
+        namespace = data.get('__builtins__')
+        if isinstance(namespace, dict):
+            namespace.clear()
+        else:
+            namespace = data['__builtins__'] = {}
         for name, value in mocked._default_builtins.items():
-            data['__builtins__'][name] = value
+            namespace[name] = value
 
     def set_student_data(self, new_data):
         """
